@@ -442,6 +442,10 @@ func c07Stream(c *fw.Ctx, cs *c07Case, base []byte) {
 	}
 	cpu0 := fw.CPUNow()
 	s := startStream(conn, "eager", 0, 0)
+	if s == nil {
+		constructorWedged(c, "stream")
+		return
+	}
 	ok := s.finish()
 	c.Count("streams", 1)
 	c.Count("stream_hostile_frames", int64(hostile))
